@@ -184,6 +184,35 @@ def check(run: Run) -> None:
                 d = ast.unparse(nm)
                 run.check(d == "FuncADLIndexError", "C18.R4", fi, n, "raises FuncADLIndexError", f"the simplifier raises {d}: only the dedicated index error is a permitted failure")
     run.floor("C18.R4", n_raise, 1, "raise statements in the simplifier")
+    # the dedicated error's text cannot fail first: source positions are attributes that nodes built by the library (and
+    # by users, programmatically) do not have
+    for fi in [f for f in m.funcs.values() if f.module.name == mod]:
+        for n in own_nodes(fi):
+            if isinstance(n, ast.Raise) and n.exc is not None:
+                for x in ast.walk(n.exc):
+                    if isinstance(x, ast.Attribute) and x.attr in ("lineno", "col_offset", "end_lineno", "end_col_offset"):
+                        run.fail("C18.R4", fi, n, f"the message of the index error reads {ast.unparse(x)}: a node that was not produced by the parser - one the simplifier built while fusing, one built programmatically - has no source position, and the permitted FuncADLIndexError turns into AttributeError", "getattr(node, 'lineno', None) or no position at all", key=f"source position read in the message of {fi.name}")
+    # no handler may swallow or convert the dedicated error into something else (shared rule, C10.R12)
+    from .c10 import check_refusals_propagate
+
+    check_refusals_propagate(run, m, "C18.R10", modules=(mod, "func_adl.ast.call_stack"))
+    # a visit method that hands back None deletes the node (ast.NodeTransformer): no handler of the simplifier may do so
+    run.rule("C18.R11", "no visit_* / call_* handler of the simplifier can return None (NodeTransformer drops the node): helpers that answer None for 'not mine' are used under a None test")
+    from ..visitors import dispatch_entries
+
+    n_h = 0
+    for ent in dispatch_entries(m, cls):
+        en = getattr(ent, "entry_name", ent.name)
+        fe = TermCtx(m, max_depth=3).analysis(ent)
+        n_h += 1
+        for s_, nd_ in fe.returns():
+            t_ = strip_sites(fe.term_of(s_.value, nd_)) if s_.value is not None else ("const", None)
+            if _may_be_none(t_):
+                # a None that is excluded by the facts where the return stands is fine
+                fx_ = Facts(fe, s_)
+                excluded = isinstance(s_.value, ast.Name) and any(isinstance(a, ast.Compare) and len(a.ops) == 1 and isinstance(a.ops[0], ast.Is) and isinstance(a.left, ast.Name) and a.left.id == s_.value.id and isinstance(a.comparators[0], ast.Constant) and a.comparators[0].value is None and not pol for a, pol in fx_.atoms)
+                run.check(excluded, "C18.R11", ent, s_, f"{en} hands back a node", f"{en} can return None ({show(t_)[:80]}): ast.NodeTransformer then removes the node from its parent - an attribute of a dictionary literal that has no such key ({{'a': 1}}.b), reached directly or after substitution, disappears from the query (a tuple loses an element, a call an argument, the result does not unparse)", "return the sub-expression as it was handed in", show(t_)[:200], key=f"{en} can return None")
+    run.floor("C18.R11", n_h, 6, "dispatch entries of the simplifier")
 
 
 def _static_kind(fa, fi: FuncInfo, e: ast.AST) -> str:
@@ -283,6 +312,10 @@ def _check_handler(run: Run, ctx, m, cls, h: FuncInfo) -> None:
             fx = Facts(fa, n)
             ok = any(_bound_fact(fa, a, not pol, sval, ("attr", vp, "elts")) for a, pol in fx.atoms)
             run.check(ok, "C18.R2", h, n, "FuncADLIndexError raised exactly under n >= len(elts)", f"{h.name} raises under a condition other than n >= len(elts)")
+            # .. and only for a literal whose positions are static: with a *seq element the written element count is not the
+            # length, so "past the end" cannot be told (the sub-expression is left intact instead)
+            star_known = any((not pol) and "Starred" in ast.unparse(a) and _mentions(fa, a, ("attr", vp, "elts")) for a, pol in fx.atoms)
+            run.check(star_known, "C18.R2", h, n, "the index error is raised only for a literal without starred elements", f"{h.name} raises FuncADLIndexError before it knows that the literal has no *seq element: (a, *rest)[2] and [*xs][1] - whose length is not the number of written elements - are refused as 'past the end' instead of being left intact", "test for ast.Starred elements first", key=f"index error before the starred test in {h.name}")
     # returns: either a (copy of a) selected element, or Subscript(v, s, Load()) with both parts AST
     for s, node in fa.returns():
         t = strip_sites(fa.term_of(s.value, node))
@@ -383,3 +416,19 @@ def check_last_key_wins(run: Run, ctx, m, cls, rule: str) -> None:
                         backwards = contains(its[0], lambda q: q[0] == "app" and q[1] == ("global", "builtins.reversed")) or contains(its[0], lambda q: q[0] == "app" and q[1] == ("global", "builtins.range") and len(q[2]) == 3 and q[2][2] == ("const", -1))
                         run.check(backwards, rule, h, s_, "the search over the keys of a dictionary literal finds the last entry with an equal key", f"{h.name} returns the value of the first entry whose key equals the selector ({show(its[0])[:80]} is searched forwards): for {{'a': p, 'a': m}}['a'] - or {{1: x, True: y}}[1] - python yields the last entry's value, the simplified query the first", "for index, key in reversed(list(enumerate(v.keys))): ..", show(alt)[:200], key="first of several equal dictionary keys selected")
     run.notes["dict_first_match_selections"] = n_sel
+
+
+def _may_be_none(t) -> bool:
+    """the term has an alternative that is the constant None (a conditional `x if x is not None else y` excludes it for x)"""
+    if t == ("const", None):
+        return True
+    if t[0] == "phi":
+        return any(_may_be_none(a) for a in t[1])
+    if t[0] == "ifexp":
+        c = t[1]
+        if c[0] == "op" and c[1] in ("Compare:IsNot", "Compare:Is") and len(c[2]) == 2 and c[2][1] == ("const", None):
+            guarded, other = (t[2], t[3]) if c[1] == "Compare:IsNot" else (t[3], t[2])
+            if guarded == c[2][0]:
+                return _may_be_none(other)
+        return _may_be_none(t[2]) or _may_be_none(t[3])
+    return False
